@@ -1,6 +1,7 @@
 /-
 Props/C04 — local storage returns every stored object byte-for-byte, at any later time.
-Property theorems only; lemmas are in Proofs/Archive, Proofs/Container (+ C05's Proofs/Lsm*).
+Property theorems only; lemmas are in Proofs/Archive, Proofs/Container (+ C05's Proofs/Lsm*);
+Proofs/ArchiveChunked for the representation of the data file the correspondence driver uses.
 
 Model = the Rust code as written after the `fix:` commits 6172e03 (remap after every write that
 changed the file size), b10f99e (no second BLTE decode in `Installation`), 947b84f
